@@ -3030,10 +3030,11 @@ nameserver_probe_callback(int result, char type, int count, int ttl, void *addre
 	(void) ttl;
 	(void) addresses;
 
-	if (result == DNS_ERR_CANCEL) {
+	if (result == DNS_ERR_CANCEL || result == DNS_ERR_SHUTDOWN) {
 		/* We canceled this request because the nameserver came up
-		 * for some other reason.  Do not change our opinion about
-		 * the nameserver. */
+		 * for some other reason, or the evdns_base (and with it the
+		 * nameserver) has been freed.  Do not change our opinion about
+		 * the nameserver; it may not exist any more. */
 		return;
 	}
 
